@@ -288,7 +288,7 @@ class C18(C03):
 class C13(Prop):
     id = "C13"
     module = "MioModel.Props.C13"
-    bins = ["net", "stream"]
+    bins = ["net", "stream", "udp"]
     run_bin = "stream"
     rule = ("cases = (a) payloads around each transport's declared maximum on an established node<->node connection, both "
             "directions: Udp 65506/65507/65508/70000, Ws 16 MiB+1 (inside the 16 MiB default frame limit of the WS library) and "
@@ -307,6 +307,8 @@ class C13(Prop):
         cmp = getattr(self, "compare", True)
         core.tie_run(stats, "stream", ["gen-sizes", tier], self.nontrivial, cmp)
         core.tie_run(stats, "net", ["gen", seed + 60, 300 if tier == "thorough" else 40], self.nontrivial, cmp)
+        # UDP over IPv6: every size between the declared maximum and the kernel's IPv6 limit, four send paths
+        core.tie_run(stats, "udp", ["gen-sweep", 65490, 65530, 1, 16, "v6"], lambda c, t: "over" in t or "max" in t, cmp)
 
     def search(self, tier, seed):
         st = core.Stats()
@@ -335,7 +337,9 @@ class C12(Prop):
             "0/1/2, <=64, around 1472, 8 KiB-32 KiB, max-2..max, above max; a fixed corpus (zero-length everywhere, exact "
             "maximum everywhere, three senders one listener with replies, connected-socket filtering, listener to listener) and "
             "a size sweep through four paths (stride 211 in the quick tier, every size 0..=max+1 in the thorough tier); plus the "
-            "from_listener guard on ids of every transport and side. non-trivial = a receiver with at least two distinct "
+            "from_listener guard on ids of every transport and side; one world in three lives on IPv6 loopback (kernel limit 65527: "
+            "sizes max+1..max+22 on every path, foreign datagrams above the declared maximum), with its own sweep of every size "
+            "65480..65530. non-trivial = a receiver with at least two distinct "
             "senders, or a zero-length / maximum-size / reply case (tags multi-sender, zero, max, reply); distinct = by case line")
     trusted_base = [KERNEL, TIE, "model of adapters/udp.rs + the UDP paths of driver.rs + Endpoint::from_listener written by hand (MioModel/Udp.lean)",
                     "the kernel's datagram service on loopback is the model's environment: a datagram of at most 65507 bytes sent to a "
@@ -354,6 +358,8 @@ class C12(Prop):
         thorough = tier == "thorough"
         core.tie_run(stats, "udp", ["gen", seed, 400 if thorough else 60], self.nontrivial, cmp)
         core.tie_run(stats, "udp", ["gen-sweep", 0, 65508, 1 if thorough else 211, 16], self.nontrivial, cmp)
+        # IPv6: the window between the declared maximum and the kernel's IPv6 limit, every size
+        core.tie_run(stats, "udp", ["gen-sweep", 65480 if not thorough else 0, 65530, 1 if not thorough else 37, 16, "v6"], self.nontrivial, cmp)
 
     def search(self, tier, seed):
         st = core.Stats()
